@@ -26,6 +26,14 @@ import (
 // (c) schedule search: iterator create/scan/release racing flush + compaction.
 // (d) steady state: repeated overwrite + full compaction does not accumulate table entries.
 
+var c07AlphaTr = []string{"put:a", "q", "otr", "tput:a", "tput:b", "titer", "reliter", "commit", "discard", "re", "cr"}
+var c07TrPrefixes = [][]string{
+	{"otr", "tput:a", "tput:b", "titer", "discard"},
+	{"otr", "tput:a", "tput:b", "tput:a", "titer", "discard"},
+	{"otr", "tput:a", "tput:b", "titer", "commit"},
+	{"put:a", "q", "otr", "tput:b", "tput:a", "titer", "discard"},
+}
+
 var c07Alpha = []string{"put:a", "put:b", "del:a", "b1", "cr", "q", "snap", "rel:0", "iter", "iterS", "reliter", "re", "otr", "tput:a", "discard"}
 
 // ---- (b) REF ----
@@ -437,6 +445,18 @@ func init() {
 			var specs []seqSpec
 			for _, cfg := range []string{"flushy/bytewise", "deep/bytewise", "tinycache/bytewise"} {
 				specs = append(specs, seqSpec{Cfg: cfg, Alpha: c07Alpha, Depth: d, Checks: "db,views"})
+			}
+			// transactions whose iterators outlive them, under the two settings that allow a removed
+			// table's number to be handed out again (no block cache / evict-on-remove): searched from
+			// the empty DB and from states where a discarded / committed transaction's iterator is
+			// still held
+			td := 6
+			if !quick {
+				td = 7
+			}
+			for _, cfg := range []string{"nocache/bytewise", "evict/bytewise"} {
+				specs = append(specs, seqSpec{Cfg: cfg, Alpha: c07AlphaTr, Depth: td, Checks: "db,views", Mode: "tr"})
+				specs = append(specs, seqSpec{Cfg: cfg, Alpha: c07AlphaTr, Depth: td - 1, Checks: "db,views", Mode: "from-held-transaction-iterator", Prefixes: c07TrPrefixes})
 			}
 			runSpecs(c, "C07", specs,
 				"(a) BFS over DB operation sequences with held iterators, snapshots, discarded transactions and reopen: after every transition every held view is re-read completely, no file was ever removed while one of its readers/writers was open, and whenever no view is held the storage listing equals live tables + live journal(s) + live manifest once quiescent (x_residue_checks); (b) BFS over event sequences {pin, unpin i, commit replacing a table, commit adding a table, commit failing at the manifest sync (abandoned version id), 5 virtual minutes} on the REAL session reference loop, from the initial state and from states 254/255/256/257/300 commits behind one pinned version; invariant after every event: every table of the current or a pinned version exists; after releasing every pin and settling: storage tables == current version (ref_*); (c) schedule search (deviation bound) of iterator scan racing flush/compaction/CompactRange; (d) 6 rounds of overwrite + delete + full compaction per configuration: table entries must not grow after round 2",
